@@ -15,6 +15,7 @@ pub mod c17;
 pub mod c18;
 pub mod c19;
 pub mod c20;
+pub mod metaconc;
 pub mod c21;
 pub mod c22;
 pub mod c23;
